@@ -77,6 +77,12 @@ def gen_world_plan(rng, backends=BACKENDS, **synth_kw):
     plan["trailing_slash"] = rng.random() < 0.25
     # interpreter configuration for the code under test: python -O / -OO in one run out of five
     plan["optimize"] = rng.choice([0] * 8 + [1, 2])
+    # what a failing read request raises (all are OSErrors; the last four are "transient" ones
+    # that retry helpers single out)
+    plan["io_error"] = rng.choice(["eio"] * 4 + ["econnreset", "etimedout", "eintr",
+                                                 "econnaborted"])
+    # locale encoding of the process (text files opened without an explicit encoding)
+    plan["locale"] = rng.choice(["utf-8"] * 6 + ["ascii", "latin-1", "cp1252", "utf-8"])
     return plan
 
 
@@ -95,6 +101,11 @@ class World:
         simfs.register()
         if fresh:
             self.reset_storage()
+            # the environment of the simulated process(es): which error a failing read request
+            # raises, and the locale encoding that text files opened without an explicit
+            # encoding get
+            SIM.io_error = plan.get("io_error", "eio")
+            SIM.locale = plan.get("locale", "utf-8")
         self.product = synth.build(plan)
         self._place(plan["backend"], list(plan.get("dirs", [])), self.product.files)
 
@@ -367,13 +378,27 @@ class World:
     def user_index_files(self):
         return {k: v for k, v in self.user_cache().items() if k[1].endswith(".index")}
 
-    def clear_user_cache(self, image=None):
+    def clear_user_cache(self, image=None, depth="files"):
+        """the user deletes cache files: one image's index, all index files (``files``), the
+        product's directory (``hashdir``), the library's cache directory (``appdir``) or the
+        whole cache home (``xdg``)"""
         n = 0
         with quiet():
             for (d, fn), _ in self.user_cache().items():
                 if image is None or fn == image + ".index":
                     disk.real_os("unlink")(os.path.join(self.root, "xdg", d, fn))
                     n += 1
+            if image is None and depth != "files":
+                top = {"hashdir": None, "appdir": self.cache_root(),
+                       "xdg": self.root + "/xdg"}[depth]
+                if top is None:
+                    base = self.cache_root()
+                    tops = [os.path.join(base, x) for x in (os.listdir(base) if os.path.isdir(base)
+                                                            else [])]
+                else:
+                    tops = [top]
+                for t in tops:
+                    shutil.rmtree(t, ignore_errors=True)
         return n
 
     def plant_user(self, hashdir, image, data):
